@@ -370,10 +370,15 @@ func (pf Producer[T]) WithCancel() (Producer[T], context.CancelFunc) {
 	once := &sync.Once{}
 
 	return func(ctx context.Context) (out T, _ error) {
-		once.Do(func() { wctx, cancel = context.WithCancel(ctx) })
-		Invariant.IsFalse(wctx == nil, "must start the operation before calling cancel")
-		return pf(wctx)
-	}, func() { once.Do(func() {}); ft.SafeCall(cancel) }
+			once.Do(func() { wctx, cancel = context.WithCancel(ctx) })
+			return pf(wctx)
+		}, func() {
+			// when the cancel function wins the race with (or simply
+			// precedes) the first execution, the producer runs with a
+			// context that is already canceled, rather than panicking.
+			once.Do(func() { wctx, cancel = context.WithCancel(context.Background()) })
+			cancel()
+		}
 }
 
 // Limit runs the producer a specified number of times, and caches the
